@@ -265,8 +265,10 @@ class _Continue(Exception):
 
 
 class _Raise(Exception):
-    def __init__(self, node):
+    def __init__(self, node, kind=None, value=None):
         self.node = node
+        self.kind = kind          # class of an exception the evaluator raises itself (StopIteration of an exhausted iterator)
+        self.value = value        # ... and what it carries (the generator's return value)
 
 
 class CallRec:
@@ -324,6 +326,7 @@ class Frame:
         self.mod = mod
         self.outer = {}           # names declared `nonlocal` / `global` -> the dict they are bound in
         self.gen = False          # the frame of a generator function
+        self.comp = False         # the scope of a comprehension / generator expression
 
 
 _MISSING = object()
@@ -348,6 +351,14 @@ class _ClassScope(dict):
             if isinstance(st, (ast.Assign, ast.AnnAssign)) and getattr(st, "value", None) is not None and \
                     any(isinstance(x, ast.Name) and x.id == name for t in (st.targets if isinstance(st, ast.Assign) else [st.target]) for x in ast.walk(t)):
                 return "const"
+            if isinstance(st, (ast.Import, ast.ImportFrom)):
+                for a in st.names:
+                    if (a.asname or a.name.split(".")[0] if isinstance(st, ast.Import) else a.asname or a.name) == name:
+                        return (st, a)
+            elif not isinstance(st, (ast.FunctionDef, ast.AsyncFunctionDef, ast.ClassDef, ast.Assign, ast.AnnAssign, ast.Expr, ast.Pass)):
+                # any other statement of the class body that binds the name (a loop, a `with`, an `if` ...): bound, value not followed
+                if any(isinstance(x, ast.Name) and x.id == name and isinstance(x.ctx, (ast.Store, ast.Del)) for x in ast.walk(st)):
+                    return "opaque"
         return None
 
     def __contains__(self, name):
@@ -363,6 +374,12 @@ class _ClassScope(dict):
         if kind == "const":
             v = self._it._class_const(c, name)
             return v if v is not None else Unknown(f"class-level name {name} bound more than once")
+        if kind == "opaque":
+            return Unknown(f"class-level name {name} bound by a statement the evaluator does not follow")
+        if isinstance(kind, tuple):
+            st_, a_ = kind
+            full = _import_full(st_, a_, c.mod.rel)
+            return Ref(canon_dotted(full) or full)
         if isinstance(kind, ast.ClassDef):
             key = ("class", name)
             if key not in c.consts:
@@ -947,6 +964,11 @@ def _current(e):
 
 def _snapshot(v):
     return v if v is _MISSING else clone(v)
+
+
+def _exc_kind(r):
+    """class name of the exception a _Raise stands for"""
+    return r.kind or _raised_class(r.node)
 
 
 def _raised_class(node):
@@ -1568,37 +1590,35 @@ class Interp:
         names = set(dir(builtins)) | {"__name__", "__file__", "__doc__", "__package__", "__spec__"}
         star = False
 
-        def walk(stmts):
+        def walk(node):
+            """every name the module's top level can bind: all binding forms, not looking into function / class bodies"""
             nonlocal star
-            for st in stmts:
-                if isinstance(st, ast.Import):
-                    for a in st.names:
+            for ch in ast.iter_child_nodes(node):
+                if isinstance(ch, ast.Import):
+                    for a in ch.names:
                         names.add(a.asname or a.name.split(".")[0])
-                elif isinstance(st, ast.ImportFrom):
-                    for a in st.names:
+                elif isinstance(ch, ast.ImportFrom):
+                    for a in ch.names:
                         if a.name == "*":
                             star = True
                         names.add(a.asname or a.name)
-                elif isinstance(st, (ast.FunctionDef, ast.AsyncFunctionDef, ast.ClassDef)):
-                    names.add(st.name)
-                elif isinstance(st, (ast.Assign, ast.AugAssign, ast.AnnAssign, ast.For, ast.With)):
-                    for x in ast.walk(st):
-                        if isinstance(x, ast.Name) and isinstance(x.ctx, ast.Store):
-                            names.add(x.id)
-                    for fld in ("body", "orelse"):
-                        walk(getattr(st, fld, []) or [])
-                elif isinstance(st, (ast.If, ast.While)):
-                    walk(st.body)
-                    walk(st.orelse)
-                elif isinstance(st, ast.Try):
-                    walk(st.body)
-                    walk(st.orelse)
-                    walk(st.finalbody)
-                    for h_ in st.handlers:
-                        if h_.name:
-                            names.add(h_.name)
-                        walk(h_.body)
-        walk(mod.tree.body)
+                elif isinstance(ch, (ast.FunctionDef, ast.AsyncFunctionDef, ast.ClassDef)):
+                    names.add(ch.name)
+                    for d in ch.decorator_list:
+                        walk(d)
+                    continue
+                elif isinstance(ch, ast.Lambda):
+                    continue
+                elif isinstance(ch, ast.Name) and isinstance(ch.ctx, (ast.Store, ast.Del)):
+                    names.add(ch.id)
+                elif isinstance(ch, ast.ExceptHandler) and ch.name:
+                    names.add(ch.name)
+                elif isinstance(ch, (ast.MatchAs, ast.MatchStar)) and ch.name:
+                    names.add(ch.name)
+                elif isinstance(ch, ast.MatchMapping) and ch.rest:
+                    names.add(ch.rest)
+                walk(ch)
+        walk(mod.tree)
         for st in ast.walk(mod.tree):
             if isinstance(st, ast.Global):
                 names.update(st.names)
@@ -1662,7 +1682,7 @@ class Interp:
                 r = self.hook(self, "getattr", [base, name], {}, node)
                 if r is not NotImplemented:
                     return r
-            if base.cls is not None and self._closed(base.cls) and not name.startswith("__"):
+            if base.cls is not None and self._closed(base.cls) and not name.startswith("__") and not getattr(base, "escaped", False):
                 # every class the object derives from is defined in the module and none defines __getattr__: there is no such attribute
                 return Crash(f"AttributeError: '{base.cls.name}' object has no attribute '{name}'")
             return Unknown(f"attribute {name} of {base!r}")
@@ -1849,7 +1869,10 @@ class Interp:
         v = self.ev(node.value, fr)
         if is_crash(v):
             return v
-        self._bind_target(node.target, v, fr, node)
+        f = fr
+        while f.comp and f.parent is not None:
+            f = f.parent                       # (`:=` inside a comprehension binds in the scope that contains the comprehension)
+        self._bind_target(node.target, v, f, node)
         return v
 
     def _e_UnaryOp(self, node, fr):
@@ -2253,6 +2276,13 @@ class Interp:
                 return slice(*parts)
             if is_const(v) and cval(v).denominator == 1:
                 return int(cval(v))
+            if isinstance(v, bool):
+                return int(v)
+            if isinstance(v, F.Rat) and not is_unknown(v):
+                t = self.truth(v, sl)                     # (a comparison the rule's oracle decides, used as 0 / 1)
+                p = fn_parts(v)
+                if t is not None and p is not None and (p[0].startswith("cmp:") or p[0].startswith("bool:") or p[0] == "not"):
+                    return int(t)
             return None
         except Unsupported:
             return None
@@ -2332,6 +2362,7 @@ class Interp:
                     rec(i + 1, f2)
         scope = Frame(fr.func, fr, fr.mod)          # (a comprehension is one scope: its loop variables are rebound, closures see the last)
         scope.gen = fr.gen
+        scope.comp = True
         rec(0, scope)
 
     def _e_ListComp(self, node, fr):
@@ -2375,6 +2406,7 @@ class Interp:
 
         scope = Frame(fr.func, fr, fr.mod)          # (one scope for the whole expression, as in Python)
         scope.gen = True                            # (and it is a generator: its loops are not summarised)
+        scope.comp = True
         return IterV(rec(0, scope, first), "generator expression")
 
     def _e_DictComp(self, node, fr):
@@ -2487,7 +2519,7 @@ class Interp:
                         try:
                             x = self.apply(nxt, [], {}, r.cls.node)
                         except _Raise as e:
-                            if _raised_class(e.node) == "StopIteration":
+                            if _exc_kind(e) == "StopIteration":
                                 return
                             raise
                         yield x
@@ -2761,12 +2793,12 @@ class Interp:
                 try:
                     return self._next(base)
                 except _Stop:
-                    raise _Raise(node)
+                    raise _Raise(node, "StopIteration", getattr(base, "retval", None))
             if attr == "send" and len(pos) == 1 and not kw and base.what.startswith("generator "):
                 try:
                     return self._next(base, send=(pos[0],))
                 except _Stop:
-                    raise _Raise(node)
+                    raise _Raise(node, "StopIteration", getattr(base, "retval", None))
             if attr == "close" and not pos:
                 base.done = True                  # (nothing more is produced; a `finally` in the generator is not run: not lowered when there is one)
                 if any(isinstance(n, ast.Try) and n.finalbody for n in ast.walk(getattr(base, "fn_node", ast.Pass()))):
@@ -2897,6 +2929,12 @@ class Interp:
                 return r
         r = self._builtin(name, pos, kw, node, fr)
         if r is NotImplemented:
+            for a_ in list(pos) + list(kw.values()):
+                # a mutable value of the module handed to a library call that is not modelled: it may come back changed
+                if isinstance(a_, Obj):
+                    a_.escaped = True
+                elif isinstance(a_, DictV) and not name.startswith(NO_EFFECT_STATEMENTS):
+                    self._poison_dict(a_, f"handed to {name}, which is not followed")
             r = self._opaque(name, pos, kw)
         rec.result = clone(r)
         return r
@@ -2963,6 +3001,25 @@ class Interp:
             return IterV(((F.const(i + st), x) for i, x in enumerate(s)), "enumerate")
         if name == "reversed" and n == 1 and isinstance(pos[0], SEQ):
             return IterV(iter(list(reversed(pos[0]))), "reversed")
+        if name == "iter" and n == 2 and not kw and isinstance(pos[0], (FuncV, Native)):
+            f0, sentinel = pos[0], pos[1]
+
+            def until():
+                while True:
+                    v_ = self.apply(f0, [], {}, node, fr)
+                    if v_ is sentinel or (isinstance(v_, bool) and isinstance(sentinel, bool) and v_ == sentinel):
+                        return
+                    e_ = self.compare(ast.Eq(), v_, sentinel)
+                    if e_ is True:
+                        return
+                    if e_ is not False:
+                        t_ = self.truth(v_, node) if isinstance(sentinel, bool) else None     # a test whose outcome the rule's oracle decides
+                        if t_ is None:
+                            raise Unsupported("iter(callable, sentinel): undecided comparison with the sentinel")
+                        if t_ == sentinel:
+                            return
+                    yield v_
+            return IterV(until(), "iter(callable, sentinel)")
         if name == "iter" and n == 1:
             if isinstance(pos[0], IterV):
                 return pos[0]
@@ -3241,7 +3298,7 @@ class Interp:
             try:
                 return self.apply(self._getattr(pos[0], "__next__", node), [], {}, node, fr)
             except _Raise as e:
-                if _raised_class(e.node) == "StopIteration" and n > 1:
+                if _exc_kind(e) == "StopIteration" and n > 1:
                     return pos[1]
                 raise
         if name == "next" and n >= 1:
@@ -3252,7 +3309,7 @@ class Interp:
             except _Stop:
                 if n > 1:
                     return pos[1]
-                raise _Raise(node)
+                raise _Raise(node, "StopIteration", getattr(pos[0], "retval", None))
         if name in ("operator.iadd", "operator.isub", "operator.imul", "operator.itruediv", "operator.imatmul") and n == 2 and not kw \
                 and isinstance(pos[0], F.Rat) and not is_const(pos[0]):
             # the in-place operators update an array object (and return it)
@@ -3281,8 +3338,11 @@ class Interp:
             if isinstance(f0, (FuncV, ClassV, Ref, Native)):
                 return Native("partial", lambda it_, p_, k_, nd_: it_.apply(f0, pre + list(p_), {**prekw, **k_}, nd_, fr))
             return Unknown("functools.partial of a value that is not a function")
-        if name == "operator.itemgetter" and n == 1 and not kw and isinstance(pos[0], F.Rat) and not is_const(pos[0]):
-            ix0 = pos[0]
+        if name == "operator.itemgetter" and n == 1 and not kw and ((isinstance(pos[0], F.Rat) and not is_const(pos[0]))
+                                                                    or (isinstance(pos[0], tuple) and any(fn_parts(x) is not None for x in pos[0] if isinstance(x, F.Rat)))):
+            ix0 = to_rat(pos[0])
+            if is_unknown(ix0):
+                return ix0
 
             def agetter(it_, p_, k_, nd_):
                 if len(p_) == 1 and isinstance(p_[0], F.Rat) and not is_unknown(p_[0]):
@@ -3593,12 +3653,19 @@ class Interp:
                 tmp = f"<yield@{st.lineno}>"
                 self._set_var(fr, tmp, got)
 
-                class _Swap(ast.NodeTransformer):
-                    def visit_Yield(self, node):
-                        return ast.copy_location(ast.Name(id=tmp, ctx=ast.Load()), node)
-                import copy as _copy
-                st2 = _Swap().visit(_copy.deepcopy(st))
-                ast.fix_missing_locations(st2)
+                st2 = getattr(st, "_v_unyield", None)
+                if st2 is None:
+                    class _Swap(ast.NodeTransformer):
+                        def visit_Yield(self, node):
+                            return ast.copy_location(ast.Name(id=tmp, ctx=ast.Load()), node)
+                    # (a fresh copy of the statement alone -- the nodes of the module carry links to their parents)
+                    st2 = _Swap().visit(ast.parse(ast.unparse(st)).body[0])
+                    ast.copy_location(st2, st)
+                    ast.fix_missing_locations(st2)
+                    for n_ in ast.walk(st2):
+                        if isinstance(n_, (ast.stmt, ast.expr)):
+                            n_.lineno = getattr(st, "lineno", 0)
+                    st._v_unyield = st2
                 self.stmt(st2, fr)
                 continue
             if isinstance(st, (ast.Expr, ast.Assign, ast.AnnAssign, ast.Return)) and isinstance(st.value, (ast.Yield, ast.YieldFrom)):
@@ -3849,8 +3916,9 @@ class Interp:
         if isinstance(t, ast.Name):
             self._set_var(fr, t.id, v)
         elif isinstance(t, (ast.Tuple, ast.List)):
-            if isinstance(v, (IterV, DictV, str)) or (isinstance(v, RepeatV) and is_const(v.count)):
-                v = tuple(self._iterable(v))
+            if isinstance(v, (IterV, DictV, str, Obj)) or (isinstance(v, RepeatV) and is_const(v.count)):
+                xs = self._iterable(v)
+                v = tuple(xs) if xs is not None else Unknown("unpacking of a value that is not a followed iterable")
             if isinstance(v, list) and any(isinstance(x, PoisonedSeq) for x in v):
                 v = v[0]
             stars = [k for k, e in enumerate(t.elts) if isinstance(e, ast.Starred)]
@@ -4184,11 +4252,18 @@ class Interp:
         if is_crash(subj):
             raise _CrashSig(subj)
 
+        def decided(r, pat):
+            # (a comparison constant folding leaves open may be one the rule's oracle decides, as for an `if`)
+            if r is True or r is False:
+                return r
+            t = self.truth(r, pat) if isinstance(r, F.Rat) and not is_unknown(r) else None
+            return r if t is None else t
+
         def matches(pat, subj=subj):
             if isinstance(pat, ast.MatchValue):
-                return self.compare(ast.Eq(), subj, self.ev(pat.value, fr))
+                return decided(self.compare(ast.Eq(), subj, self.ev(pat.value, fr)), pat)
             if isinstance(pat, ast.MatchSingleton):
-                return self.compare(ast.Is(), subj, pat.value)
+                return decided(self.compare(ast.Is(), subj, pat.value), pat)
             if isinstance(pat, ast.MatchOr):
                 und = False
                 for q in pat.patterns:
@@ -4292,7 +4367,7 @@ class Interp:
         except (_Raise, _CrashSig) as e:
             if gens:
                 raise Unsupported(f"an exception inside a `with` on a generator-based context manager at line {st.lineno}")
-            kind = _raised_class(e.node) if isinstance(e, _Raise) else e.crash.why.split(":")[0]
+            kind = _exc_kind(e) if isinstance(e, _Raise) else e.crash.why.split(":")[0]
             for names in suppress:
                 if kind is None or any(n_ is None for n_ in names):
                     raise Unsupported(f"cannot decide whether contextlib.suppress at line {st.lineno} catches the exception")
@@ -4331,7 +4406,10 @@ class Interp:
                     raise Unsupported(f"cannot decide whether `except {ast.unparse(h_.type) if h_.type is not None else ''}` at line {h_.lineno} catches {kind}")
                 if c:
                     if h_.name:
-                        self._set_var(fr, h_.name, Unknown(f"the {kind} caught at line {h_.lineno}"))
+                        if isinstance(reraise, _Raise) and reraise.kind is not None:
+                            self._set_var(fr, h_.name, Obj(None, {"value": reraise.value, "args": () if reraise.value is None else (reraise.value,)}))
+                        else:
+                            self._set_var(fr, h_.name, Unknown(f"the {kind} caught at line {h_.lineno}"))
                     try:
                         self.run(h_.body, fr)
                     except _Raise as r2:
@@ -4354,7 +4432,7 @@ class Interp:
             if not st.handlers:
                 finish()
                 raise
-            kind = _raised_class(r.node)
+            kind = _exc_kind(r)
             if kind is None:
                 raise Unsupported(f"`raise` of an exception whose class is not evident inside `try` at line {st.lineno}")
             handle(kind, r)
@@ -4678,7 +4756,12 @@ class Interp:
             elif n in rec.carried and n in before:
                 o = F.sym(f"{n}@{tag}{rec.k}")
                 orig = before[n]
-                if fr.vars.get(n) is ins[n] and isinstance(orig, F.Rat) and not same_value(rec.out[n], ins[n]):
+                if n in inplace_names and ins[n] is orig:
+                    # the object itself was the in-symbol: it is the loop's result now (whatever names and slots refer to it)
+                    self._set_rat(orig, o)
+                    if fr.vars.get(n) is not orig:
+                        self._set_var(fr, n, Unknown("a name rebound inside a loop that also updates its array in place"))
+                elif fr.vars.get(n) is ins[n] and isinstance(orig, F.Rat) and not same_value(rec.out[n], ins[n]):
                     # updated in place: the array the name was bound to before the loop is the one updated (its aliases see it)
                     self._set_rat(orig, o)
                     self._set_var(fr, n, orig)
